@@ -114,6 +114,13 @@ def _workloads(task, note):
         if O.model_points(model) > 3000:
             continue
         cfg = gen.gen_config(rnd, model, cost=cost)
+        if i % 5 == 4 and len(model["doms"]) >= 2:
+            # choices restricted to a proper subset of the domains (the Golomb model does that): when propagation does not fix
+            # the others the search runs out of decision domains before the problem is solved - it may stop or refuse, but not
+            # index with "no domain"
+            k = rnd.randint(1, len(model["doms"]) - 1)
+            cfg["decision"] = sorted(rnd.sample(range(len(model["doms"])), k))
+            counts["models_with_a_decision_subset"] = counts.get("models_with_a_decision_subset", 0) + 1
         ctx = {"model": model, "cfg": cfg}
         progress.mark(ctx)
         out = modelrun.run_enum(model, cfg, None, max_solutions=3000)
@@ -133,6 +140,10 @@ def _workloads(task, note):
                                       rnd.randrange(len(model["idx"])))
             except IndexError as e:
                 note(ctx, "IndexError in split / *_and_queue: " + str(e)[:150])
+            except ValueError:
+                if "decision" not in cfg or len(cfg["decision"]) == len(model["doms"]):
+                    raise
+                counts["decision_subset_refused"] = counts.get("decision_subset_refused", 0) + 1  # an explicit refusal is fine
             counts["runs"] += 1
         counts["models"] += 1
         counts["runs"] += 2
